@@ -583,6 +583,16 @@ def compare(ctx, hists, sig_prefix, stream):
     for h in hists:
         for nm, n in getattr(h.w, "forms", {}).items():
             ctx.count("bulk_argument_form:" + nm, n)
+        # the items the glue decodes (WorldRun.v) and the magnitudes beyond the file format, as they occur in the histories
+        for it in h.items:
+            if it[0] == 33:
+                ctx.count("history_item:del-extended-slice(step %s)" % ("0" if it[4] == 0 else "+" if it[4] > 0 else "-"))
+            elif it[0] == 51:
+                ctx.count("history_item:constructed-with-parent:" + KINDS[it[2]])
+            elif it[0] == 53:
+                ctx.count("history_item:assignment-refused-by-the-implementation")
+            elif it[0] in (15, 16) and it[2] >= (1 << 64):
+                ctx.count("history_item:size-or-offset-of-2^64-and-beyond-taken")
     for h, rep in zip(hists, reps):
         if isinstance(rep, tuple):
             ctx.add("corr", sig_prefix + ":model-died", "the model driver failed on a history", {"items": h.items[:60], "stream": stream})
